@@ -25,7 +25,7 @@ func C05(r *core.Run) {
 		"(R05.2) with versioning enabled, the current version is archived under its own id before it is replaced; (R05.3/R09.1n) bucketObject.data is never nil while the key is in the bucket, nilable iterator fields are guarded; " +
 		"(R05.4) archived versions are discarded only by rmVersion/promote with the addressed id, the current version only when its id was addressed, the key only when nothing remains, setVersioning touches nothing but the status; " +
 		"(R05.5) every put draws a fresh id from the generator, whose counter is incremented under its mutex and is part of the id; " +
-		"(R05.6) a current version is overwritten without archiving only when the bucket was never versioned; (R01.6) bytes and metadata maps of stored versions are never modified (an archived version keeps exactly its own metadata)."
+		"(R05.6) a current version is overwritten without archiving only when the bucket was never versioned; (R01.6) bytes and metadata maps of stored versions are never modified (an archived version keeps exactly its own metadata). (R05.7) a freshly built version that becomes current outside put carries an id from the generator."
 	r.NotDecided = "that old versions keep their bytes (follows from R01.6 + immutability of bucketData, checked under C07), 'most recently created' order of remaining versions, multi-delete semantics, value-level uniqueness of ids beyond the counter"
 	ctx := oblig.NewCtx(r.P)
 	installNonNilHook(r, ctx)
